@@ -5,7 +5,7 @@
 From Coq Require Import List String Ascii Bool Permutation Lia.
 Import ListNotations.
 From DI Require Import Syntax Tokens Bounds Param Subs Superset Substitute Spec RustSem Group Search Gen GenMain Validate IMap Hygiene Dispatch Examples ExamplesGroup ExamplesF16.
-From DI.proofs Require Import Basics SupersetSound SupersetExact SupersetComplete SupersetWf SubstituteProofs SubstituteSpec BoundsProofs DispatchProofs GroupProofs SearchProofs SearchFlat SearchNested SearchRows FlatSemantics FlatConcrete GenProofs GenMainProofs GenMainArgs ParamProofs ParamNames ParamAlpha ParamCanon ParamOrder RustSemProofs ValidateProofs IMapProofs HygieneProofs.
+From DI.proofs Require Import Basics SupersetSound SupersetExact SupersetComplete SupersetWf SubstituteProofs SubstituteSpec BoundsProofs DispatchProofs GroupProofs SearchProofs SearchFlat SearchNested SearchRows FlatSemantics FlatConcrete GenProofs GenMainProofs GenMainArgs ParamProofs ParamNames ParamAlpha ParamCanon ParamOrder ParamIdem RustSemProofs ValidateProofs IMapProofs HygieneProofs.
 
 (* ===================================================================================== *)
 (* C09 -- header generalisation is exact first-order matching                             *)
@@ -574,6 +574,61 @@ Proof.
   - split; vm_compute; reflexivity.
 Qed.
 Print Assumptions C13_canonical_block_alpha_nonvacuous.
+
+(* "canonicalising twice changes nothing", the resolver's half, for every block: the resolver
+   run on the canonical block with the canonical index list [cix ix] (the parameter numbered i
+   is now called `_ŠČi` and keeps number i) changes nothing, provided no name the first pass
+   left as written is spelled like one of the block's own canonical names (a user type called
+   `_ŠČ0`: the reserved prefix).  The corollary is idempotence itself under the hypothesis that
+   the indexer numbers the canonical block as it numbered the original: an equation between
+   two computed lists, evaluated on every generated block by `check C13` (DESIGN 0.14). *)
+Theorem C13_resolver_idempotent : forall b,
+  fresh_block b ->
+  resolve_with (cix (indexed (index_block b))) (canon b) = canon b.
+Proof. exact resolver_idempotent. Qed.
+Print Assumptions C13_resolver_idempotent.
+
+Theorem C13_idempotent_if_numbering_stable : forall b,
+  fresh_block b ->
+  indexed (index_block (canon b)) = cix (indexed (index_block b)) ->
+  canon (canon b) = canon b.
+Proof. exact canon_idempotent_if_numbering_stable. Qed.
+Print Assumptions C13_idempotent_if_numbering_stable.
+
+(* the same with both hypotheses as booleans: `check C13` evaluates them (extracted) on every
+   generated block, so on each of them idempotence of the model's canonicalisation is a theorem,
+   and the model's canonical block is compared with the implementation's *)
+Theorem C13_idempotent_checked : forall b,
+  fresh_blockb b = true -> numbering_stableb b = true -> canon (canon b) = canon b.
+Proof. exact canon_idempotent_checked. Qed.
+Print Assumptions C13_idempotent_checked.
+
+Definition user_names (s : string) : string :=
+  if String.eqb s (canon_name 0) then "T"%string
+  else if String.eqb s (canon_name 1) then "U"%string else s.
+
+(* non-vacuity: the first example block written with the user's names `T`, `U` is not
+   canonical, satisfies both hypotheses, and its canonical block is a fixed point *)
+Example C13_idempotent_nonvacuous :
+  match ex_blocks with
+  | b :: _ =>
+      let ub := alpha_block (fun s : string => s) user_names b in
+      fresh_block ub /\
+      (indexed (index_block (canon ub)) = cix (indexed (index_block ub))) /\
+      (term_eqb (canon ub) ub = false) /\
+      (canon (canon ub) = canon ub)
+  | [] => False
+  end.
+Proof.
+  cbv zeta iota beta delta [ex_blocks].
+  split.
+  - intros k n Hin e He. vm_compute in Hin. vm_compute in He.
+    repeat (destruct He as [He|He]; [subst e|]); try destruct He;
+      repeat (destruct Hin as [Hin|Hin]; [inversion Hin; subst; vm_compute; discriminate|]);
+      destruct Hin.
+  - split; [|split]; vm_compute; reflexivity.
+Qed.
+Print Assumptions C13_idempotent_nonvacuous.
 
 (* ===================================================================================== *)
 (* C15 -- ?Sized relaxation is exact.  Coverage of unsized queries is C02_exact_coverage    *)
